@@ -143,6 +143,20 @@ def make_search(mido, base, depth):
     if not is_unknown:
         inv_overrides = [(('time', 'x'),), (('nosuch', 1),),
                          (('type', 'nosuchtype'),)]
+        # another VALID type with the same attributes: the type of a message
+        # cannot be changed by copying it
+        t0 = vars(factory())['type']
+        twin = {'note_on': 'note_off', 'note_off': 'note_on',
+                'polytouch': 'note_on', 'start': 'stop', 'stop': 'start',
+                'clock': 'reset', 'continue': 'clock', 'reset': 'clock',
+                'active_sensing': 'clock', 'tune_request': 'clock',
+                'text': 'lyrics', 'lyrics': 'text', 'marker': 'cue_marker',
+                'cue_marker': 'marker', 'copyright': 'text',
+                'track_name': 'instrument_name',
+                'instrument_name': 'track_name', 'device_name': 'track_name',
+                'channel_prefix': 'midi_port'}.get(t0)
+        if twin:
+            inv_overrides.append((('type', twin),))
         if bad is not None:
             inv_overrides.append(((first, bad),))
         # an override that compares EQUAL to the current value but is of the
